@@ -31,7 +31,7 @@ m = {
     "setup_cmd": "cd /verif/tool && GOFLAGS=-mod=mod GOPROXY=off go build -o /verif/bin/gosymx ./cmd/gosymx",
     "hooks": {
         "guard": "verif",
-        "enable": "harnesses and the verif API package are injected through go build overlays (go/packages Overlay for the symbolic run, go test -overlay for native replay); the source hooks are log.VerifYield (build tag 'verif': a callback at every debug log call) and utils.VerifYield (a callback at the four points of utils/timer.go where another goroutine's call can interleave with the timer's goroutine), both used as yield points for event injection during native replay and enabled with `go test -tags verif`",
+        "enable": "harnesses and the verif API package are injected through go build overlays (go/packages Overlay for the symbolic run, go test -overlay for native replay); the source hooks are log.VerifYield (build tag 'verif': a callback at every debug log call) utils.VerifYield (a callback at the four points of utils/timer.go where another goroutine's call can interleave with the timer's goroutine) and types.VerifYield (a callback right after listeners have been registered on an emitter), all used as yield points for event injection during native replay and enabled with `go test -tags verif`",
         "baseline_off_cmd": "cd /repo && GOFLAGS=-mod=mod GOPROXY=off go test -vet=off -count=1 ./...",
         "source_commits": HOOK_COMMITS,
         "add_only": True,
